@@ -85,13 +85,19 @@ OptionStructs ==
 \*   string, a list of strings, a list of dict records ("silly user might have passed in dicts"), a list of adict records.
 \*   faults: "norm_items"  normalize_config raises in its checks of the items (unknown option / wrong scheme), i.e.
 \*                          after it has rewritten the items,
-\*           "setup_quotes" VideoReader / VideoWriter raise with a message quoting the item (maxsize+resize / segtime).
+\*           "setup_quotes" VideoReader / VideoWriter raise with a message quoting the item (maxsize+resize / segtime),
+\*           "adapt_restart" (VideoOut) no fault of the configuration: the output has adaptive fps and the frame rate changes in
+\*                          the middle of the run, so that the writer tears the RTSP stream down and serves it again
+\*                          (video_out.py write_adapt -> new_writer): everything the writer logs on that path as well.
 EndpointShapes == { <<"single", <<>> >>, <<"comma", <<>> >>, <<"single", <<"list">> >>,
                     <<"single", <<"list", "dict">> >>, <<"single", <<"list", "adict">> >> }
 EndpointStructs ==
   { [cls |-> cls, top |-> top, key |-> EndpointKey(cls), nest |-> sh[2], leaf |-> sh[1], fault |-> fault] :
        cls \in Classes \cap {"VideoIn", "VideoOut"}, top \in Tops, sh \in EndpointShapes,
        fault \in {"none", "norm_unrelated", "norm_items", "setup_quotes"} }
+  \cup
+  { [cls |-> cls, top |-> top, key |-> EndpointKey(cls), nest |-> sh[2], leaf |-> sh[1], fault |-> "adapt_restart"] :
+       cls \in Classes \cap {"VideoOut"}, top \in Tops, sh \in EndpointShapes }
 
 \* Family 3: a credentialed URI given as sources/outputs of a filter that talks ZeroMQ there; Filter.init refuses it
 \*   (filter.py:936-939) *after* it has emitted the START event (l.915).
@@ -173,8 +179,8 @@ MetaSrc(c, D)   == IF ReaderMade(c) /\ c.fault = "none" THEN ReaderSource(D) ELS
 
 (* ---- VideoOut: VideoWriter (video_out.py:127) -------------------------------------------------------------------- *)
 WriterLog(c, D) ==
-  IF c.cls = "VideoOut" /\ IsEndpoint(c) /\ SetupReached(c) /\ c.fault = "none"
-  THEN IF "writer_log_clear" \in D THEN "clear" ELSE "masked"
+  IF c.cls = "VideoOut" /\ IsEndpoint(c) /\ SetupReached(c) /\ c.fault \in {"none", "adapt_restart"}
+  THEN IF "writer_log_clear" \in D THEN "clear" ELSE "masked"       \* 'video serve: ...' at every (re)start, l.153
   ELSE "absent"
 
 (* ---- the exception text logged by Filter.run (filter.py:1193) ---------------------------------------------------- *)
